@@ -305,6 +305,35 @@ func runFOUNDCHECK(c *Ctx) {
 						"a delete with a non-matching value must fail without effect; on some path the entry is reported found although DeepEqual(stored value, given value) did not come out true")
 				}
 			}
+			if name == "(*Mast).Get" {
+				// the caller's destination receives the entry's value on every found path: either no destination
+				// was given (value == nil) or reflect.Value.Set has run — also when the stored value is nil
+				var dest *ssa.Parameter
+				for _, p := range fn.Params[1:] {
+					if _, isIface := p.Type().Underlying().(*types.Interface); isIface && !strings.Contains(p.Type().String(), "Context") {
+						dest = p // the last interface-typed parameter
+					}
+				}
+				if dest != nil {
+					setDone := ir.FlowFactGen(r, func(fc ir.Fact) bool {
+						tv, tnn, ok := ir.NilTest(fc.Cond)
+						return ok && ir.ResolveCell(ir.Strip(tv)) == ssa.Value(dest) && fc.Truth != tnn
+					}, func(i ssa.Instruction) bool {
+						call, ok := i.(*ssa.Call)
+						if !ok {
+							return false
+						}
+						sc := ir.Callee(call.Call)
+						return sc != nil && sc.String() == "(reflect.Value).Set"
+					}, func(ssa.Instruction) bool { return false })
+					if setDone {
+						c.OK(P.InstrPos(r), "'found' result of Get: destination", "the destination is set (reflect.Value.Set) on every path with a destination", false)
+					} else {
+						c.Violation(fn, P.InstrPos(r), "'found' without handing the value to the destination",
+							"on some path Get reports the entry found and returns without setting the caller's destination (an entry whose stored value is nil): the destination keeps what it held before the call, not the last value written for the key")
+					}
+				}
+			}
 			if equalFact(r.Block()) {
 				c.OK(P.InstrPos(r), "'found' result of "+name, "dominated by a key comparison that came out equal", false)
 			} else {
